@@ -146,7 +146,13 @@ MRegister(R, t, kw, exact, mk) ==
                  ELSE IF Has(R.map[op], t) THEN R.map[op][Idx(R.map[op], t)].h
                  ELSE AutoH(op, t)
       fuzzy == ~exact \/ Mutant = "exact_in_tree"
-  IN [R EXCEPT
+      \* mutant "skip_unchanged": nothing but the log is touched when every handler to be stored is the
+      \* one already stored (the exact flag is not compared)
+      unchanged == \A op \in ops : Has(R.map[op], t) /\ R.map[op][Idx(R.map[op], t)].h = hnd(op)
+  IN IF Mutant = "skip_unchanged" /\ unchanged
+     THEN [R EXCEPT !.made = IF mk.n = 0 THEN R.made ELSE Append(R.made, mk)]
+     ELSE
+     [R EXCEPT
         !.map   = [op \in DOMAIN R.map |-> IF op \in ops THEN SetKey(R.map[op], t, Entry(t, hnd(op)))
                                           ELSE R.map[op]],
         !.tree  = [op \in DOMAIN R.tree |-> IF op \in ops /\ fuzzy THEN MRegFuzzy(R.tree[op], t)
